@@ -227,6 +227,12 @@ def report(pid, tier, seed, mod, m, wall, nshards, replay):
             n = len(m["cells"].get(name[5:], []))
         if n == 0:
             inconclusive.append("required observation never made: %s %s" % (name, why))
+    # reach counters: the anchored library functions the workload is supposed to drive
+    for req in getattr(mod, "REQUIRED_REACH", []):
+        alts = (req,) if isinstance(req, str) else tuple(req)
+        if not any(v > 0 and any(k.endswith("::" + a) for a in alts) for k, v in m["reach"].items()):
+            if os.environ.get("VERIF_NO_REACH") != "1":
+                inconclusive.append("library function never reached by the workload: %s" % "|".join(alts))
     evaluations = int(sum(m["tallies"].values()))
     if evaluations == 0 and not unknown:
         inconclusive.append("no evaluations")
